@@ -168,6 +168,9 @@ func (i *interpreter) store(T types.Type, addr *value, v value) {
 	old := load(T, addr)
 	m, ok := i.iteValue(i.guard, v, old)
 	if !ok {
+		m, ok = i.itePtr(T, i.guard, v, old)
+	}
+	if !ok {
 		panic(unmergeable{"guarded store of a non-scalar value that differs"})
 	}
 	store(T, addr, m)
@@ -245,6 +248,10 @@ type ptrAlt struct {
 
 type symPtr struct {
 	alts []ptrAlt
+	// ordered: first matching alternative wins and the last one is the
+	// default (conditions need not be exclusive); otherwise the conditions
+	// are mutually exclusive and exhaustive
+	ordered bool
 }
 
 func (i *interpreter) symIndexAddr(cells []value, s sym) value {
@@ -304,6 +311,74 @@ func (i *interpreter) pickAlt(sp symPtr) *value {
 	panic(engineError("pickAlt: no alternative"))
 }
 
+// itePtr merges two pointers to math/big.Int objects into a symbolic pointer
+// (the objects themselves are left alone: loads become ite chains, stores
+// through the merged pointer are guarded per alternative).  Restricted to
+// *big.Int, the one pointer type the target code routinely rebinds under
+// data-dependent conditions (r = new(big.Int).SetBit(r, i, 1)).
+func (i *interpreter) itePtr(T types.Type, c *Term, a, b value) (value, bool) {
+	if T == nil || T.String() != "*math/big.Int" {
+		return nil, false
+	}
+	tt := i.tt
+	// ordered alternatives: a's (each under c, a's default becomes (c, p)),
+	// then b's unchanged (reached only when c is false)
+	var alts []ptrAlt
+	switch x := a.(type) {
+	case *value:
+		if x == nil {
+			return nil, false
+		}
+		alts = append(alts, ptrAlt{c, x})
+	case symPtr:
+		if !x.ordered {
+			return nil, false
+		}
+		for k, al := range x.alts {
+			g := c
+			if k < len(x.alts)-1 {
+				g = tt.And(c, al.c)
+			}
+			alts = append(alts, ptrAlt{g, al.p})
+		}
+	default:
+		return nil, false
+	}
+	switch x := b.(type) {
+	case *value:
+		if x == nil {
+			return nil, false
+		}
+		alts = append(alts, ptrAlt{tt.True, x})
+	case symPtr:
+		if !x.ordered {
+			return nil, false
+		}
+		alts = append(alts, x.alts...)
+		alts[len(alts)-1].c = tt.True
+	default:
+		return nil, false
+	}
+	var out []ptrAlt
+	for k, al := range alts {
+		if al.c.IsFalse() && k < len(alts)-1 {
+			continue
+		}
+		out = append(out, al)
+		if al.c.IsTrue() {
+			break
+		}
+	}
+	if len(out) > symPtrCap {
+		return nil, false
+	}
+	if len(out) == 1 {
+		return out[0].p, true
+	}
+	i.ps.bounds = appendUnique(i.ps.bounds, "*big.Int values rebound under symbolic conditions are merged into guarded pointer alternatives")
+	return symPtr{alts: out, ordered: true}, true
+}
+
 // storeAny stores through a plain or symbolic pointer.
 func (i *interpreter) storeAny(T types.Type, addr value, v value) {
 	sp, ok := addr.(symPtr)
@@ -312,8 +387,18 @@ func (i *interpreter) storeAny(T types.Type, addr value, v value) {
 		return
 	}
 	saved := i.guard
-	for _, a := range sp.alts {
-		i.guard = i.tt.And(saved, a.c)
+	notPrev := i.tt.True
+	for k, a := range sp.alts {
+		if sp.ordered {
+			if k == len(sp.alts)-1 {
+				i.guard = i.tt.And(saved, notPrev)
+			} else {
+				i.guard = i.tt.And(saved, i.tt.And(notPrev, a.c))
+				notPrev = i.tt.And(notPrev, i.tt.Not(a.c))
+			}
+		} else {
+			i.guard = i.tt.And(saved, a.c)
+		}
 		if i.guard.IsFalse() {
 			continue
 		}
@@ -784,6 +869,11 @@ func (fr *frame) symIf(instr *ssa.If, c *Term) {
 			default:
 				m, ok := i.iteValue(c, rT, rE)
 				if !ok {
+					if res := fr.fn.Signature.Results(); res.Len() == 1 {
+						m, ok = i.itePtr(res.At(0).Type(), c, rT, rE)
+					}
+				}
+				if !ok {
 					ps.mergeStack = ps.mergeStack[:depth]
 					fail("return values not mergeable")
 				}
@@ -802,6 +892,11 @@ func (fr *frame) symIf(instr *ssa.If, c *Term) {
 			merged = make([]value, len(vT))
 			for k := range vT {
 				m, ok := i.iteValue(c, vT[k], vE[k])
+				if !ok {
+					if phi, isPhi := j.Instrs[k].(*ssa.Phi); isPhi {
+						m, ok = i.itePtr(phi.Type(), c, vT[k], vE[k])
+					}
+				}
 				if !ok {
 					ps.mergeStack = ps.mergeStack[:depth]
 					fail("phi of non-mergeable values")
